@@ -203,6 +203,20 @@ func cmdCore(o *Out, line string, f []string) {
 	o.count(fmt.Sprintf("ndocs<%d", 4*(1+len(accepted)/4)))
 	o.nontrivial(line)
 
+	// ---- oracle for C03 (encode direction): the payload is the canonical encoding ----
+	for _, wd := range wire {
+		if strings.HasPrefix(wd, "X:") {
+			o.violation(line, "collector output does not conform to the FTDC layout: "+wd[2:], nil)
+			break
+		}
+		if strings.HasPrefix(wd, "C:") {
+			if why := nonCanonical(unhx(wd[strings.LastIndex(wd, ":")+1:])); why != "" {
+				o.violation(line, "chunk payload is not the canonical encoding: "+why, nil)
+				break
+			}
+		}
+	}
+
 	// ---- oracle for C01: structured documents read back == project(accepted inputs) ----
 	if derr != nil {
 		o.violation(line, "reading back the collector's own output failed", derr.Error())
@@ -397,4 +411,72 @@ func datetimesInRange(kids []*Node) bool {
 		}
 	}
 	return true
+}
+
+// nonCanonical decodes the delta stream of a payload with an independent decoder and re-encodes it with
+// maximal zero runs; it returns why the payload differs from that canonical form ("" if it does not).
+func nonCanonical(p []byte) string {
+	if len(p) < 4 {
+		return "payload too short"
+	}
+	l := int(int32(binary.LittleEndian.Uint32(p)))
+	if l < 5 || l+8 > len(p) {
+		return "reference document / counts missing"
+	}
+	kids, err := parseDocStrict(p[:l])
+	if err != nil {
+		return "reference document is not valid BSON"
+	}
+	nm := int(binary.LittleEndian.Uint32(p[l:]))
+	nd := int(binary.LittleEndian.Uint32(p[l+4:]))
+	if nm != len(leavesOf(kids, nil, false, "")) {
+		return "metric count differs from the reference document"
+	}
+	body := p[l+8:]
+	var ds []uint64
+	rest := body
+	for len(ds) < nm*nd {
+		v, n := binary.Uvarint(rest)
+		if n <= 0 {
+			return "delta stream truncated"
+		}
+		rest = rest[n:]
+		if v != 0 {
+			ds = append(ds, v)
+			continue
+		}
+		z, n := binary.Uvarint(rest)
+		if n <= 0 {
+			return "delta stream truncated"
+		}
+		rest = rest[n:]
+		for k := uint64(0); k <= z; k++ {
+			ds = append(ds, 0)
+		}
+	}
+	if len(ds) != nm*nd {
+		return "zero run overshoots the delta count"
+	}
+	if len(rest) != 0 {
+		return "trailing bytes after the delta stream"
+	}
+	var canon []byte
+	for i := 0; i < len(ds); {
+		if ds[i] != 0 {
+			canon = putUvarint(canon, ds[i])
+			i++
+			continue
+		}
+		run := 0
+		for i+run < len(ds) && ds[i+run] == 0 {
+			run++
+		}
+		canon = putUvarint(canon, 0)
+		canon = putUvarint(canon, uint64(run-1))
+		i += run
+	}
+	if !bytes.Equal(canon, body) {
+		return "a zero run is not maximal"
+	}
+	return ""
 }
